@@ -226,7 +226,10 @@ Step ==
                                before == IF Has(disp, tgt.id) THEN ById(disp, tgt.id).feetotal
                                          ELSE IF tgt.round > 1 /\ \E y \in Range(disp) : y.hash = target THEN (CHOOSE y \in Range(disp) : y.hash = target /\ \A z \in Range(disp) : z.hash = target => z.id <= y.id).feetotal
                                          ELSE Zero
-                           IN Monus(Monus(tgt.feetotal, before), din)
+                               \* (the same message escrows the reporter's stake when it completes the fee of a first round)
+                               escrowNow == IF tgt.round = 1 /\ tgt.status = VOTING /\ ~(Has(disp, tgt.id) /\ ById(disp, tgt.id).status # PREVOTE)
+                                            THEN tgt.slash ELSE Zero
+                           IN Monus(Monus(tgt.feetotal, before) ++ escrowNow, din)
                       ELSE Zero)
         /\ potpaid' = LET pp == IF reset THEN <<>> ELSE potpaid IN
                        IF e.ev = "ClaimReward" /\ e.ok /\ Has(disp, e.id)
